@@ -44,6 +44,9 @@ type Iface struct {
 	V Value
 }
 
+// AtomBytes is the element a decimal atom becomes inside a []byte (only copied around, never inspected).
+type AtomBytes struct{ D *sym.Term }
+
 type Closure struct {
 	Fn  *ssa.Function
 	Env []Value
